@@ -110,6 +110,25 @@ def main():
                             if got != [B / name]:
                                 s.fail("loaded_path_relative:" + key, f"loaded under the relative directory {str(B)!r}: {got}, expected {[B / name]}")
                         out.unlink()
+        # ---- several recordings in one document, two of them copies of the same file (equal content hash) in different
+        #      sub-folders: every recording keeps its OWN path through save under A and load under B
+        A, B = Path("/data/proj"), Path("/mnt/other")
+        for hashes in (("h1", "h1", None), ("h1", "h2", "h1"), (None, None, None)):
+            rels = ["site1/x.wav", "site2/x.wav", "y.wav"]
+            recs = [data.Recording(path=A / r, duration=1, channels=1, samplerate=8000, hash=h) for r, h in zip(rels, hashes)]
+            clips = [data.Clip(recording=r, start_time=0, end_time=1) for r in recs]
+            objs = {"recording_set": data.RecordingSet(recordings=recs), "dataset": data.Dataset(name="d", recordings=recs),
+                    "annotation_set": data.AnnotationSet(clip_annotations=[data.ClipAnnotation(clip=c) for c in clips]),
+                    "prediction_set": data.PredictionSet(clip_predictions=[data.ClipPrediction(clip=c) for c in clips])}
+            for tname, obj in objs.items():
+                key = f"{tname}:hashes={hashes}"
+                s.case(None, key, sample=dict(type=tname, audio_dir=str(A), paths=rels, hashes=list(hashes)))
+                out = tmp / f"{uuid.uuid4().hex}.json"
+                io.save(obj, out, audio_dir=A)
+                got = sorted(str(r.path) for r in recordings_of(io.load(out, audio_dir=B)))
+                if got != sorted(str(B / r) for r in rels):
+                    s.fail("several_recordings:" + tname, f"{key}: loaded under {B}: {got}, expected {sorted(str(B / r) for r in rels)}")
+                out.unlink()
     finally:
         for f in tmp.glob("*"):
             f.unlink()
